@@ -5,6 +5,10 @@ HOME = os.path.dirname(os.path.dirname(os.path.abspath(__file__)))
 sys.path.insert(0, HOME)
 
 CHECKS = {
+ "C01": dict(engine="E3 probe bus + E5 statistical comparator", technique="offline statistical checker over samples recorded by a harness sampler at the output-handler boundary: batch-means z tests against independently computed Boltzmann references (quadrature, own Ewald energy, factorised internal coordinates) and between algorithmic variants, with replication; deterministic hard-core exclusion monitor",
+    level="exploration", ref="DESIGN.md §3 C01",
+    text="Real chains of harness-built soft-sphere pairs (3-D heap/list, 2-D cuboid), the single water molecule, the hard-disk dipole, two charges (power-bounded, cell-bounded[, cell-veto]) and the dipole variants (4 in quick, 7 in thorough; water pair and 81 hard-disk dipoles in thorough) are sampled through InputOutputHandler.write; every observable is mapped through its reference CDF and tested in 12 quantile bins + first moment with batch-means errors; variants of one model are compared pairwise. A deviation counts only with |z|>5, effect above 10% of a bin's mass, and confirmation by an independent 4x replication.",
+    note="Bounded-confidence statement about the recorded observables, not convergence. Effects smaller than the floor (or in unrecorded observables, e.g. three-body correlations) are out of reach. Quick tier resolves ~5-10% effects; thorough ~2%."),
  "C20": dict(engine="E6 twin-process differential", technique="offline checker over recorded event logs of twin processes (multi-process vs single-process mediator with imposed per-handler random streams), seeded delay injection inside the forked workers for schedule diversity, /proc-based process-leak and zero-CPU bounded-progress monitors",
     level="exploration", ref="DESIGN.md §3 C20",
     text="Generated soft/hard sphere systems (with and without cells), molecules and hard-disk dipoles are run under the real MultiProcessMediator with 2..16 cores and seeded delays (0..15 ms, optionally delaying every other handler) injected in the workers; every run's commit/sample log must equal bit for bit the single-process run in which each handler owns the same private random stream; workers must be gone after post_run(); a run in which no process consumes CPU for 10 s is a deadlock. Evidence counts distinct arrival orders, precomputed and discarded out-states.",
